@@ -19,7 +19,7 @@ CHECKS = {
          "DESIGN.md section 3 C01"),
  "C16": ("exploration",
          "property-based testing with renderer ground truth: documents rendered by the harness with recorded line / column / char / byte positions of every node; a generic Spanned tree and provoked type errors are compared with them; a consistency predicate re-derives every reported Location from the text",
-         "Random decorated documents (all scalar styles, multi-byte text, anchors / aliases to scalars and containers, block and flow) under layouts with a multi-byte first line, LF / CRLF / lone CR, comments, markers and indentation 2-4: both locations of every node of a generic Spanned<tree> are internally consistent and name the renderer's position (alias use site / anchored definition site), single-line scalar byte ranges equal the written token, a non-integer planted at every scalar leaf of an all-integer typed tree is reported at that leaf (or as the definition site under an alias); 3 fixed documents x every leaf x 586 layouts exhaustively; fixed merge documents for merge use / definition sites; enum payloads in tagged and mapping notation read directly and through an alias. Exploration.",
+         "Random decorated documents (all scalar styles, multi-byte text, anchors / aliases to scalars and containers, block and flow) under layouts with a multi-byte first line, LF / CRLF / lone CR, comments, markers and indentation 2-4: both locations of every node of a generic Spanned<tree> are internally consistent and name the renderer's position (alias use site / anchored definition site), single-line scalar byte ranges equal the written token, a non-integer planted at every scalar leaf of an all-integer typed tree is reported at that leaf (or as the definition site under an alias); 3 fixed documents x every leaf x 586 layouts exhaustively; fixed merge documents for merge use / definition sites; enum payloads in tagged and mapping notation read directly and through an alias; an anchored scalar of the wrong type used through an alias in 11 value positions (field, element, newtype / tuple / struct variant payload, byte element, merge value, merge-sequence element, map value, Option, item) x 4 values x layouts: the error carries the alias as use site and the anchored node as definition site. Exploration.",
          "below mapping keys and inside replayed content only the definition site of plain nodes is judged (the property speaks of values reached through an alias); block scalars only for consistency; one open finding in the parser dependency (span of a quoted scalar includes trailing blanks / comment) excludes quoted scalars under comment layouts",
          "DESIGN.md section 3 C16"),
  "C14": ("exploration",
